@@ -39,13 +39,14 @@ Oth == [t |-> "other", o |-> "fifo"]
 DirS(c) == [t |-> "dir", ino |-> "i0", xdev |-> FALSE, rd |-> TRUE, ls |-> TRUE, c |-> c]
 
 Leaves1 == IF Wide THEN {F11, F22, F21, F11x, LinkS("x"), LinkS("y")} ELSE {F11, F22, F21, F11x, LinkS("x")}
-Leaves2 == IF Wide THEN {F11, F22, F21, LinkS("x")} ELSE {F11, F22}
+Leaves2 == IF Wide THEN {F11, F22, F21} ELSE {F11, F22}
 LeavesB == {F11, F22}
-DirsA == {DirS(c) : c \in PartialFns({"a", "b"}, Leaves2)}
+Leaves2b == IF Wide THEN Leaves2 ELSE {F11}
+DirsA == {DirS(c) : c \in {f \in PartialFns({"a", "b"}, Leaves2) : "b" \in DOMAIN f => f["b"] \in Leaves2b}}
 DirsB == {DirS(c) : c \in PartialFns(IF Wide THEN {"a", "b"} ELSE {"a"}, LeavesB)}
 Shapes == {DirS(c) : c \in UNION {[X -> Leaves1 \cup DirsA \cup DirsB] : X \in SUBSET {"a", "b"}}}
 RootShapes == {s \in Shapes : /\ ("a" \in DOMAIN s.c => s.c["a"] \in Leaves1 \cup DirsA)
-                              /\ ("b" \in DOMAIN s.c => s.c["b"] \in (IF Wide THEN {F11, F22} ELSE {}) \cup DirsB)}
+                              /\ ("b" \in DOMAIN s.c => s.c["b"] \in (IF Wide THEN {F11} ELSE {}) \cup DirsB)}
 
 \* attach name facts and verdicts to a shape
 RECURSIVE Dress(_, _)
